@@ -126,6 +126,16 @@ CHECKS.update({
     },
 })
 
+CHECKS.update({
+    "C03": {
+        "engine": "SHAPE", "category": "exploration",
+        "technique": "bounded-exhaustive enumeration of parity assignments x spins x conserving-node subsets x naming flags; all chain pairs per coefficient group checked against eta from the particle table, plus canonical/helicity cross-formalism consistency",
+        "text": "for every pair of chains that share their coefficients and differ by reversing daughter helicities at parity-conserving nodes the coupling-factor ratio must be the product of eta over exactly those nodes (both formalisms; in the canonical one this checks the Clebsch-Gordan conventions); the helicity couplings implied by every canonical basis assignment must be single-valued per helicity coefficient",
+        "note": "pairs whose sharing is not due to parity coupling (child helicities switched off) are not judged; identical particles with spin out of scope",
+        "design": "3/C03",
+    },
+})
+
 NOT_YET = "check not implemented yet at this commit (planned, see DESIGN.md section 7)"
 
 
